@@ -92,11 +92,13 @@ Emit == Done => PrintT(ToJson([cores |-> y, n |-> prof.n, k |-> kk, cand |-> can
 
 ValsS == {-1, 1, 2}
 ProfT == { [n |-> <<2, 3>>, r |-> 2, all |-> TRUE], [n |-> <<3, 2>>, r |-> 1, all |-> TRUE],
+           [n |-> <<3, 1>>, r |-> 2, all |-> FALSE], [n |-> <<1, 3>>, r |-> 2, all |-> FALSE], [n |-> <<3, 1, 1>>, r |-> 2, all |-> FALSE], [n |-> <<1, 2, 1, 2>>, r |-> 2, all |-> FALSE], [n |-> <<2, 2, 2>>, r |-> 3, all |-> FALSE], [n |-> <<4, 1>>, r |-> 1, all |-> FALSE],
            [n |-> <<3, 3, 2>>, r |-> 2, all |-> FALSE], [n |-> <<2, 2, 2>>, r |-> 1, all |-> FALSE], [n |-> <<3, 3, 3>>, r |-> 3, all |-> FALSE],
            [n |-> <<2, 3, 2, 2>>, r |-> 2, all |-> FALSE], [n |-> <<4, 4>>, r |-> 2, all |-> FALSE], [n |-> <<2, 4, 2>>, r |-> 1, all |-> FALSE] }
 ProfN == { [n |-> <<3, 3, 3>>, r |-> 0, all |-> FALSE], [n |-> <<4, 4, 4, 4>>, r |-> -1, all |-> FALSE] }
 KN == {1, 2, 5}
 ProfQ == { [n |-> <<2, 2>>, r |-> 2, all |-> TRUE], [n |-> <<3, 2>>, r |-> 1, all |-> TRUE],
+           [n |-> <<3, 1>>, r |-> 2, all |-> FALSE], [n |-> <<1, 3>>, r |-> 2, all |-> FALSE], [n |-> <<3, 1, 1>>, r |-> 2, all |-> FALSE], [n |-> <<1, 2, 1, 2>>, r |-> 2, all |-> FALSE], [n |-> <<2, 2, 2>>, r |-> 3, all |-> FALSE],
            [n |-> <<3, 3, 2>>, r |-> 2, all |-> FALSE], [n |-> <<2, 2, 2>>, r |-> 1, all |-> FALSE],
            [n |-> <<2, 3, 2, 2>>, r |-> 2, all |-> FALSE], [n |-> <<4, 4>>, r |-> 2, all |-> FALSE] }
 SeedsQ == 1..12
